@@ -43,12 +43,14 @@ def build(assets, adjust, symbols=None):
     return ds
 
 
-def ask_all(ds, queries, tz=None, universe=None):
+def ask_all(ds, queries, tz=None, universe=None, subsec=None):
     dh = BacktestDataHandler(universe, data_sources=[ds])
     out = []
-    for a, t in queries:
+    for i, (a, t) in enumerate(queries):
         sym = 'EQ:' + a
         dt = ts(t)
+        if subsec and i < len(subsec) and subsec[i]:
+            dt = dt + pd.Timedelta(int(subsec[i]), unit='ns')       # an instant inside the second [t, t+1)
         if tz:
             dt = dt.tz_convert(tz)
         ba = dh.get_asset_latest_bid_ask_price(dt, sym)
@@ -96,7 +98,7 @@ def handler(c):
         finally:
             shutil.rmtree(d, ignore_errors=True)
         res['answers_shared_dir'] = ask_all(mine, c['queries'])
-    res['answers'] = ask_all(ds, c['queries'])
+    res['answers'] = ask_all(ds, c['queries'], subsec=c.get('subsec'))
     if c.get('cut_day') is not None:
         cut = c['cut_day']
         trunc = dict((a, [r for r in rows if r[0] <= cut]) for a, rows in c['assets'].items())
